@@ -17,6 +17,16 @@
 (*   GuardOnParsedPath   = FALSE : skipper matches on RequestURI  (F2)     *)
 (*   ExactlyOneSignature = FALSE : "secure signature count > 0"   (F12)    *)
 (*   ZeroExpNeverExpires = TRUE  : exp = 0 is not checked against the clock *)
+(*   GuardCleansPath     = TRUE  : the skipper decides on a NORMALISED path *)
+(*       (dot segments / duplicate slashes resolved) while the router       *)
+(*       dispatches on the path as it was sent                              *)
+(*   RemembersVerified   = TRUE  : a grant is remembered (by credential or  *)
+(*       by connection) and a later request is let through without being    *)
+(*       validated at the time it arrives                                   *)
+(* A behaviour is one request or, with FollowUp = TRUE, a HISTORY of two    *)
+(* requests to the same node: the second one is related to the first       *)
+(* (the same credential after its exp has passed, the same claims under a   *)
+(* foreign signature, no credential on the same connection).               *)
 (* The prescriptive configuration (both TRUE) satisfies the invariants;    *)
 (* the cases are generated from the descriptive one.                      *)
 (***************************************************************************)
@@ -25,6 +35,9 @@ EXTENDS Naturals, Sequences, FiniteSets, TLC, Json
 CONSTANTS
     GuardOnParsedPath,
     ExactlyOneSignature,
+    GuardCleansPath,     \* TRUE = deviation: matchesPath normalises (path.Clean) what it inspects; the code: FALSE
+    RemembersVerified,   \* TRUE = deviation: the node remembers an earlier grant; the code: FALSE (every request is judged on its own)
+    FollowUp,            \* TRUE: histories of two requests (TargetMode "one"); the first tokens are FirstTokens
     ZeroExpNeverExpires, \* TRUE = the code: jwx treats exp = 0 (1970-01-01T00:00:00Z) as "no exp claim" and skips the expiry check
     TargetMode,      \* "all" | "core" | "one"
     TokenDefects,    \* 0 = core token set, 1/2 = every token with at most n deviations from the valid one,
@@ -36,19 +49,21 @@ None == "none"
 (***************************************************************************)
 (* Routes the driver registers (atoms).  ":id" is an echo path parameter.  *)
 (***************************************************************************)
+\* ":id" is an echo path parameter (one segment), "*" the echo wildcard (the rest of the path)
 RoutePattern == [
     internal |-> <<"/", "internal", "/", "x">>,
     iparam   |-> <<"/", "internal", "/", "p", "/", ":id">>,
+    iwild    |-> <<"/", "internal", "/", "w", "/", "*">>,
     iroot    |-> <<"/", "internal">>,
     status   |-> <<"/", "status">>,
     metrics  |-> <<"/", "metrics">>,
     health   |-> <<"/", "health">>,
     public   |-> <<"/", "pub", "/", "x">> ]
 RouteNames == DOMAIN RoutePattern
-InternalAuth == {"internal", "iparam", "iroot"}                       \* handlers registered under /internal
+InternalAuth == {"internal", "iparam", "iwild", "iroot"}                       \* handlers registered under /internal
 InternalBound == InternalAuth \cup {"status", "metrics", "health"}    \* bound to the internal listener
 
-Canon(r) == [i \in 1..Len(RoutePattern[r]) |-> IF RoutePattern[r][i] = ":id" THEN "v" ELSE RoutePattern[r][i]]
+Canon(r) == [i \in 1..Len(RoutePattern[r]) |-> IF RoutePattern[r][i] \in {":id", "*"} THEN "v" ELSE RoutePattern[r][i]]
 Multi(r) == Len(RoutePattern[r]) > 2
 
 Enc == [internal |-> "%69nternal", status |-> "%73tatus", metrics |-> "%6Detrics", health |-> "%68ealth",
@@ -94,15 +109,33 @@ ParamVal == ("param-dotdot" :> "..") @@
 ParamValQ == ("param-pct-bad-query" :> "%25zz") @@
     ("param-pct-end-query" :> "100%25") @@
     ("param-denc-slash-query" :> "a%252Fb")
+\* values of the parameter / wildcard tail that are SEVERAL path segments for whoever resolves dot segments: k times ".."
+\* (k = 2 leaves /internal, k = 3 passes the root), separated by an encoded slash (one segment for the router, it matches
+\* ":id") or a real one (matches "*" only); then possibly down again into a public name
+DD(k, dd, sep) == [i \in 1..(2 * k - 1) |-> IF i % 2 = 1 THEN dd ELSE sep]
+ClimbVal == ("climb2-encslash" :> DD(2, "..", "%2F")) @@
+    ("climb3-encslash" :> DD(3, "..", "%2F")) @@
+    ("climb5-encslash" :> DD(5, "..", "%2F")) @@
+    ("climb2-encboth" :> DD(2, "%2e%2e", "%2F")) @@
+    ("climb3-encboth" :> DD(3, "%2e%2e", "%2F")) @@
+    ("climb2-slash" :> DD(2, "..", "/")) @@
+    ("climb3-slash" :> DD(3, "..", "/")) @@
+    ("climb3-encdots" :> DD(3, "%2e%2e", "/")) @@
+    ("climb2-encslash-pub" :> DD(2, "..", "%2F") \o <<"%2F", "pub", "%2F", "x">>) @@
+    ("climb2-slash-pub" :> DD(2, "..", "/") \o <<"/", "pub", "/", "x">>) @@
+    ("climb2-encslash-back" :> DD(2, "..", "%2F") \o <<"%2F", "internal", "%2F", "x">>) @@
+    ("climb3-encslash-query" :> DD(3, "..", "%2F") \o <<"?", "a=b">>) @@
+    ("climb2-slash-trailing" :> DD(2, "..", "/") \o <<"/">>)
 Variants == {"plain", "trailing", "dslash-before", "dslash-inside", "dot-before", "dot-inside", "dotdot-inside",
              "dotdot-outside", "enc-first", "enc-last", "enc-slash", "enc-slash-param", "upper-first", "upper-last",
              "query", "query-slash", "frag", "semicolon", "backslash",
-             "denc-first", "denc-slash", "pct-bad-suffix", "raw-bad-escape-suffix"} \cup DOMAIN ParamVal \cup DOMAIN ParamValQ
+             "denc-first", "denc-slash", "pct-bad-suffix", "raw-bad-escape-suffix"} \cup DOMAIN ParamVal \cup DOMAIN ParamValQ \cup DOMAIN ClimbVal
 Applicable(v, r) ==
     CASE v \in {"dslash-inside", "dot-inside", "dotdot-inside", "enc-last", "enc-slash", "upper-last", "backslash"} -> Multi(r)
       [] v = "enc-slash-param" -> r = "iparam"
       [] v \in DOMAIN ParamVal \cup DOMAIN ParamValQ -> r = "iparam"
       [] v = "denc-slash" -> Multi(r)
+      [] v \in DOMAIN ClimbVal -> r \in {"iparam", "iwild"}
       [] OTHER -> TRUE
 
 Variant(v, p) ==
@@ -134,6 +167,7 @@ Variant(v, p) ==
          [] v = "raw-bad-escape-suffix" -> p \o <<"%zz">>
          [] v \in DOMAIN ParamVal  -> init \o <<ParamVal[v]>>
          [] v \in DOMAIN ParamValQ -> init \o <<ParamValQ[v], "?", "a=b">>
+         [] v \in DOMAIN ClimbVal  -> init \o ClimbVal[v]
 
 \* request-target forms (RFC 9112 3.2).  "HOST" is replaced by the listener address by the concretiser.
 PathForms == {"origin", "absolute", "absolute-alt", "connect-path"}
@@ -189,6 +223,9 @@ Scale == <<
     [l |-> "1s",         v |-> "1"],
     [l |-> "60s",        v |-> "60"],
     [l |-> "60s+half",   v |-> "60.5"],
+    [l |-> "short",      v |-> "63"],             \* histories: nbf = now - 60 s, exp = now + 3 s
+    [l |-> "60s+lapse",  v |-> "LAPSE"],          \* histories: the nbf of the first request's token seen from the clock of the
+                                                  \* second request (the driver lets the time pass until "short" has expired)
     [l |-> "1h",         v |-> "3600"],
     [l |-> "1h+half",    v |-> "3600.5"],
     [l |-> "2h",         v |-> "7200"],
@@ -259,9 +296,10 @@ Dom == [
     jti    |-> {"uuid", "text", "missing"},
     nbf    |-> {"60s", "-1h", "60s+half", "2h", "48h", "1y", "epoch", "1e10", "2^63ns+", "missing"},   \* now - nbf
     iat    |-> {"0", "later", "future", "1h", "48h", "1e10", "missing"},                                \* nbf - iat
-    life   |-> ({Scale[i].l : i \in 1..Len(Scale)} \ {"60s", "60s+half", "epoch"}) \cup {"missing", "str-1h", "str-1e10", "rfc-1h", "rfc-1e10", "abs-0", "abs-0.5"},  \* exp - nbf
+    life   |-> ({Scale[i].l : i \in 1..Len(Scale)} \ {"60s", "60s+half", "epoch", "short", "60s+lapse"}) \cup {"missing", "str-1h", "str-1e10", "rfc-1h", "rfc-1e10", "abs-0", "abs-0.5"},  \* exp - nbf
     len    |-> {"ok", "long"} ]
 Attrs == DOMAIN Dom
+AllowedFit == {"ed25519/EdDSA", "p256/ES256", "p384/ES384", "p521/ES512", "rsa/RS512", "rsa/PS512"}
 Default == [shape |-> "bearer", ser |-> "compact", alg |-> "ed25519/EdDSA", signer |-> "authorised", hdr |-> "none",
             aud |-> "ok", iss |-> "ok", sub |-> "ok", jti |-> "uuid", nbf |-> "60s", iat |-> "0", life |-> "1h", len |-> "ok"]
 Deviate(T) == T \cup UNION {UNION {{[t EXCEPT ![a] = v] : v \in Dom[a]} : a \in Attrs} : t \in T}
@@ -275,13 +313,24 @@ CoreTokens == {Default,
                [Default EXCEPT !.nbf = "48h"],       \* expired
                [Default EXCEPT !.life = "1e10"],     \* expires in 317 years
                [Default EXCEPT !.iss = "other-user"]}
-Tokens == CASE TokenDefects = 0 -> CoreTokens
+\* histories: the first request carries a valid token of every permitted algorithm, long-lived or about to expire
+FirstTokens == {[Default EXCEPT !.alg = a, !.life = l] : a \in AllowedFit, l \in {"1h", "short"}}
+\* the second request of a history, by its relation to the first one
+Rels == {"same-later",          \* the same credential text, after the lapse of time ("short" has expired by then)
+         "resigned-later",      \* the same claims (same jti), signed by a foreign key under the authorised key's kid
+         "absent-keepalive"}    \* no credential at all, at once, on the TCP connection the first request was granted on
+\* the second request's credential described RELATIVE TO THE CLOCK OF THE SECOND REQUEST
+FollowTok(t, rel) ==
+    CASE rel = "same-later"        -> [t EXCEPT !.nbf = "60s+lapse"]
+      [] rel = "resigned-later"    -> [t EXCEPT !.nbf = "60s+lapse", !.signer = "attacker-kid-auth"]
+      [] rel = "absent-keepalive"  -> [t EXCEPT !.shape = "absent"]
+Tokens == CASE FollowUp -> FirstTokens
+            [] TokenDefects = 0 -> CoreTokens
             [] TokenDefects = 1 -> Deviate({Default})
             [] TokenDefects = 2 -> Deviate(Deviate({Default}))
             [] OTHER -> {[Default EXCEPT !.nbf = a, !.iat = b, !.life = c] : a \in Dom.nbf, b \in Dom.iat, c \in Dom.life}
 
 \* --- the property's own notion of a valid credential (three-valued: the statement does not talk about every attribute)
-AllowedFit == {"ed25519/EdDSA", "p256/ES256", "p384/ES384", "p521/ES512", "rsa/RS512", "rsa/PS512"}
 InvalidToken(t) ==
     \/ t.shape \in {"absent", "empty", "scheme-only", "basic"}          \* carries no bearer token
     \/ t.ser \in {"general0", "general2af", "general2uf"}                \* not (only) signed by an authorised key
@@ -297,15 +346,16 @@ InvalidToken(t) ==
 ValidToken(t) ==
     /\ t.shape \in {"bearer", "bearer-lower"} /\ t.ser = "compact" /\ t.alg \in AllowedFit
     /\ t.signer \in {"authorised", "authorised-kid-thumb"} /\ t.hdr = "none" /\ t.aud \in {"ok", "array-ok"}
-    /\ t.iss = "ok" /\ t.sub = "ok" /\ t.jti = "uuid" /\ t.nbf = "60s" /\ t.iat = "0" /\ t.life \in {"1h", "2h", "24h"} /\ t.len = "ok"
+    /\ t.iss = "ok" /\ t.sub = "ok" /\ t.jti = "uuid" /\ t.nbf \in {"60s", "60s+lapse"} /\ t.iat = "0" /\ t.life \in {"short", "1h", "2h", "24h"} /\ t.len = "ok"
 Validity(t) == IF InvalidToken(t) THEN "no" ELSE IF ValidToken(t) THEN "yes" ELSE "unspecified"
 \* the attributes whose value alone makes the credential invalid (names the cause in a violation signature)
 Why(t) == {a \in Attrs : InvalidToken([Default EXCEPT ![a] = t[a]])}
 
-Cases == {[l |-> l, target |-> t, tok |-> k] : l \in Listeners, t \in Targets, k \in Tokens}
+Cases == {[l |-> l, target |-> t, tok |-> k, rel |-> None] : l \in Listeners, t \in Targets, k \in Tokens}
 
-VARIABLES req, phase, matched, status, reached, user
-vars == <<req, phase, matched, status, reached, user>>
+\* past: the finished earlier requests of the history (credential as described at THEIR time, and what happened)
+VARIABLES req, phase, matched, status, reached, user, past
+vars == <<req, phase, matched, status, reached, user, past>>
 
 M == Method(req.target.form)
 T == TargetSeq(req.target)
@@ -336,20 +386,37 @@ RouteView(m, t) ==
     ELSE ParsedPath(m, t)
 
 \* echo router: static routes match atom by atom (case sensitive, no cleaning); a trailing :param takes the rest up to
-\* "/" (observed: one trailing "/" after the parameter still matches)
+\* "/", but a :param that is the LAST node of its branch (a leaf, as here) takes the whole rest of the path, slashes
+\* included (echo router.Find: "if currentNode.isLeaf { i = l }"; observed: /internal/p/../.. is dispatched to /internal/p/:id);
+\* a trailing "*" takes whatever follows its "/"
 Match(r, path) ==
     LET pat == RoutePattern[r]
         n == Len(pat)
-    IN IF pat[n] = ":id"
+    IN IF pat[n] = "*"
+       THEN /\ Len(path) >= n - 1
+            /\ SubSeq(path, 1, n - 1) = SubSeq(pat, 1, n - 1)
+       ELSE IF pat[n] = ":id"
        THEN /\ Len(path) >= n
             /\ SubSeq(path, 1, n - 1) = SubSeq(pat, 1, n - 1)
-            /\ path[n] # "/"
-            /\ \A i \in n..(Len(path) - 1) : path[i] # "/"
        ELSE path = pat
 Router(routes, path) == IF \E r \in routes : Match(r, path) THEN CHOOSE r \in routes : Match(r, path) ELSE None
 
 \* engine.go: skipper = !matchesPath(X, "/internal")
-GuardView(m, t) == IF GuardOnParsedPath THEN ParsedPath(m, t) ELSE t
+\* path.Clean of a rooted path over atoms: empty and "." segments dropped, ".." removes the segment before it (none at the root)
+RECURSIVE CleanSegs(_, _, _)
+CleanSegs(s, stack, cur) ==
+    LET push == IF cur = <<>> \/ cur = <<".">> THEN stack
+                ELSE IF cur = <<"..">> THEN (IF stack = <<>> THEN stack ELSE SubSeq(stack, 1, Len(stack) - 1))
+                ELSE Append(stack, cur)
+    IN IF s = <<>> THEN push
+       ELSE IF Head(s) = "/" THEN CleanSegs(Tail(s), push, <<>>)
+       ELSE CleanSegs(Tail(s), stack, Append(cur, Head(s)))
+RECURSIVE Join(_)
+Join(segs) == IF segs = <<>> THEN <<>> ELSE <<"/">> \o Head(segs) \o Join(Tail(segs))
+Clean(s) == IF s = <<>> \/ s[1] # "/" THEN s
+            ELSE LET segs == CleanSegs(s, <<>>, <<>>) IN IF segs = <<>> THEN <<"/">> ELSE Join(segs)
+GuardView(m, t) == IF ~GuardOnParsedPath THEN t
+                   ELSE IF GuardCleansPath THEN Clean(ParsedPath(m, t)) ELSE ParsedPath(m, t)
 IsPrefix(p, s) == Len(p) <= Len(s) /\ SubSeq(s, 1, Len(p)) = p
 MatchesPath(s, prefix) ==
     LET s2 == IF s # <<>> /\ s[Len(s)] = "/" THEN s ELSE s \o <<"/">>
@@ -357,10 +424,10 @@ MatchesPath(s, prefix) ==
 Guarded(m, t) == MatchesPath(GuardView(m, t), <<"/", "internal">>)
 
 Init == /\ req \in Cases
-        /\ phase = "recv" /\ matched = None /\ status = None /\ reached = None /\ user = None
+        /\ phase = "recv" /\ matched = None /\ status = None /\ reached = None /\ user = None /\ past = <<>>
 
-Deny == /\ status' = "401" /\ phase' = "done" /\ UNCHANGED <<req, matched, reached, user>>
-Next1(p) == /\ phase' = p /\ UNCHANGED <<req, matched, status, reached, user>>
+Deny == /\ status' = "401" /\ phase' = "done" /\ UNCHANGED <<req, matched, reached, user, past>>
+Next1(p) == /\ phase' = p /\ UNCHANGED <<req, matched, status, reached, user, past>>
 
 \* echo: the router runs before the middleware chain installed with Use()
 Route ==
@@ -369,14 +436,20 @@ Route ==
        IN IF p = <<"!">>
           THEN /\ status' = "other" /\ phase' = "done" /\ UNCHANGED matched
           ELSE /\ matched' = Router(RoutesOn(req.l), p) /\ phase' = "guard" /\ UNCHANGED status
-    /\ UNCHANGED <<req, reached, user>>
+    /\ UNCHANGED <<req, reached, user, past>>
 
 Guard == /\ phase = "guard"
          /\ IF Guarded(M, T) THEN Next1("extract") ELSE Next1("dispatch")
 
+\* the deviation RemembersVerified: the earlier request of the history was granted and this one presents the same
+\* credential text / arrives on the same connection: let through without looking at the clock or the credential
+Remembered == /\ RemembersVerified /\ past # <<>> /\ past[1].user = "issuer"
+              /\ req.rel \in {"same-later", "absent-keepalive"}
+Grant == /\ user' = "issuer" /\ phase' = "dispatch" /\ UNCHANGED <<req, matched, status, reached, past>>
 \* authenticationCredential: exactly two whitespace separated fields, the first is "bearer" (any case)
 Extract == /\ phase = "extract"
-           /\ IF req.tok.shape \in {"bearer", "bearer-lower", "dup-garbage-first"} THEN Next1("secure") ELSE Deny
+           /\ IF Remembered THEN Grant
+              ELSE IF req.tok.shape \in {"bearer", "bearer-lower", "dup-garbage-first"} THEN Next1("secure") ELSE Deny
 
 UnparsableExp == {"abs-2^63-1", "abs-2^63", "abs-1e30"}   \* refused (confirmed by the real verdicts: no drift)
 AcceptableAlg(a) == a \in AllowedFit \cup {"p384/ES256"}
@@ -398,6 +471,9 @@ Secure == /\ phase = "secure"
 Verify == /\ phase = "verify"
           /\ IF /\ req.tok.signer \in {"authorised", "authorised-kid-thumb"}
                 /\ req.tok.ser \notin {"flattened", "general2af"}
+                \* keyFitsSigningAlgorithm (repair of F19-alg-curve): the label ES256 passes credentialIsSecure, but the
+                \* authorised key must be on the curve of the algorithm (before the repair jwx verified ES256 with a P-384 key)
+                /\ req.tok.alg # "p384/ES256"
              THEN Next1("validate") ELSE Deny
 
 \* jwt.Validate(WithAudience): exp, nbf, iat against the clock (NumericDates are truncated to whole seconds by jwx; a
@@ -429,26 +505,33 @@ Best == /\ phase = "best"
 
 Issuer == /\ phase = "issuer"
           /\ IF req.tok.iss = "ok"
-             THEN /\ user' = "issuer" /\ phase' = "dispatch" /\ UNCHANGED <<req, matched, status, reached>>
+             THEN Grant
              ELSE Deny
 
 Dispatch == /\ phase = "dispatch"
             /\ IF matched # None THEN (reached' = matched /\ status' = "handler")
                                   ELSE (status' = "other" /\ UNCHANGED reached)
-            /\ phase' = "done" /\ UNCHANGED <<req, matched, user>>
+            /\ phase' = "done" /\ UNCHANGED <<req, matched, user, past>>
 
-Next == Route \/ Guard \/ Extract \/ Secure \/ Verify \/ Validate \/ Best \/ Issuer \/ Dispatch
+\* histories: when the first request is finished, a second one related to it arrives at the same node
+Follow == /\ FollowUp /\ phase = "done" /\ past = <<>>
+          /\ \E rel \in Rels :
+                req' = [req EXCEPT !.tok = FollowTok(req.tok, rel), !.rel = rel]
+          /\ past' = <<[tok |-> req.tok, status |-> status, reached |-> reached, user |-> user]>>
+          /\ phase' = "recv" /\ matched' = None /\ status' = None /\ reached' = None /\ user' = None
+
+Next == Route \/ Guard \/ Extract \/ Secure \/ Verify \/ Validate \/ Best \/ Issuer \/ Dispatch \/ Follow
 Spec == Init /\ [][Next]_vars
 
 (***************************************************************************)
 (* The property                                                            *)
 (***************************************************************************)
-Done == phase = "done"
+Done == phase = "done" /\ (FollowUp => past # <<>>)       \* the (last) request of the behaviour is finished
 \* no handler under /internal runs without a valid token
 AuthSound == reached \in InternalAuth => Validity(req.tok) # "no"
 \* every failure is answered 401 with no side effect (failure = a request the router dispatches to an /internal handler
 \* with a credential that is not valid)
-FailureIs401 == (Done /\ matched \in InternalAuth /\ Validity(req.tok) = "no") => (status = "401" /\ reached = None)
+FailureIs401 == (phase = "done" /\ matched \in InternalAuth /\ Validity(req.tok) = "no") => (status = "401" /\ reached = None)
 DeniedNoEffect == status = "401" => reached = None /\ user = None
 \* internal families are never served by the public listener
 ListenerSeparation == (req.l.cfg = "diff" /\ req.l.port = "public") => reached \notin InternalBound
@@ -458,5 +541,7 @@ Emit == (Done /\ Gen) =>
         PrintT(ToJson([cfg |-> req.l.cfg, port |-> req.l.port, form |-> req.target.form, variant |-> req.target.variant,
                        route |-> req.target.route, method |-> M, target |-> T, tok |-> req.tok, tv |-> TimeValues(req.tok),
                        validity |-> Validity(req.tok), why |-> Why(req.tok), expzero |-> ExpIsEpoch(req.tok), guarded |-> Guarded(M, T), matched |-> matched,
-                       status |-> status, reached |-> reached, user |-> user, bad |-> Bad]))
+                       status |-> status, reached |-> reached, user |-> user, bad |-> Bad,
+                       rel |-> req.rel, past |-> [i \in 1..Len(past) |-> [tok |-> past[i].tok, tv |-> TimeValues(past[i].tok), status |-> past[i].status,
+                                                           reached |-> past[i].reached, user |-> past[i].user]]]))
 =============================================================================
